@@ -72,15 +72,9 @@
 ; string renderings
 (declare-fun hexstr (Bytes) Str)
 
-; representation assumption (A11): every Pricing decoded from the store was produced by ParsePricing, whose price
-; amounts are non-negative (it builds them with sdk.NewCoin, which panics on negative amounts)
-(assert (forall ((b Bytes) (d Str)) (! (>= (amt (Pricing_Price (dec_Pricing b)) d) 0) :pattern ((amt (Pricing_Price (dec_Pricing b)) d)))))
-(assert (forall ((s Str) (d Str)) (! (>= (amt (Pricing_Price (parsePricing s)) d) 0) :pattern ((amt (Pricing_Price (parsePricing s)) d)))))
-; ParsePricing always produces a price of exactly one coin (possibly of amount zero)
-(assert (forall ((s Str)) (! (= (slen (Pricing_Price (parsePricing s))) 1) :pattern ((parsePricing s)))))
-
 ; representation invariant WF: stored records agree with the key they are stored under; binding owners are
 ; ordinary accounts (they signed the bind message: A3)
+(define-fun onePriceCoin ((pr Pricing)) Bool (and (= (slen (Pricing_Price pr)) 1) (>= (Coin_Amount (select (sarr (Pricing_Price pr)) 0)) 0)))
 (define-fun ordinary ((a Bytes)) Bool (and (not (= a (modAddr strlit_depositAcc))) (not (= a (modAddr strlit_requestAcc))) (not (= a (modAddr strlit_feeCollector)))))
 (define-fun wfBindAt ((r (Array Key Bytes)) (s Str) (p Bytes)) Bool
   (=> (bindFound r s p) (and (= (ServiceBinding_ServiceName (bindOf r s p)) s) (= (ServiceBinding_Provider (bindOf r s p)) p)
@@ -88,7 +82,9 @@
         (forall ((d Str)) (! (>= (amt (ServiceBinding_Deposit (bindOf r s p)) d) 0) :pattern ((amt (ServiceBinding_Deposit (bindOf r s p)) d))))
         ; the stored price terms are the parsed form of the published pricing text (C15)
         (not (= (select r (KPricing s p)) bnil))
-        (= (dec_Pricing (select r (KPricing s p))) (parsePricing (ServiceBinding_Pricing (bindOf r s p)))))))
+        (= (dec_Pricing (select r (KPricing s p))) (parsePricing (ServiceBinding_Pricing (bindOf r s p))))
+        ; the stored price is exactly one coin of non-negative amount (what ParsePricing produces)
+        (onePriceCoin (dec_Pricing (select r (KPricing s p)))))))
 (define-fun WF ((r (Array Key Bytes))) Bool
   (forall ((s Str) (p Bytes)) (! (wfBindAt r s p) :pattern ((select r (KBind s p))))))
 
@@ -208,6 +204,8 @@
 (define-fun actOK ((r (Array Key Bytes)) (rid Bytes)) Bool
   (=> (isActive r rid) (and (requestFound r rid) (bindFound r (reqSvc r rid) (reqProv r rid)) (ordinary (reqConsumer r rid))
         (= (BytesValue_Value (dec_BytesValue (select r (KActID rid)))) rid)
+        ; the request id names its context and batch
+        (= (ridCtx rid) (reqCtxId r rid)) (= (ridBatch rid) (CompactRequest_RequestContextBatchCounter (reqOf r rid)))
         ; a pending request belongs to the current, still open batch of its context
         (= (CompactRequest_RequestContextBatchCounter (reqOf r rid)) (RequestContext_BatchCounter (ctxOf r (reqCtxId r rid))))
         (not (= (RequestContext_BatchState (ctxOf r (reqCtxId r rid))) BATCHCOMPLETED)))))
@@ -272,6 +270,7 @@
 (define-fun expOK ((r (Array Key Bytes)) (h Int) (id Bytes)) Bool
   (=> (not (= (select r (KExpQ h id)) bnil))
       (and (= (select r (KExpQ h id)) (idVal id)) (ctxFound r id) (rng_RequestContext (ctxOf r id)) (<= (slen (RequestContext_Providers (ctxOf r id))) 32767)
+           (ordinary (RequestContext_Consumer (ctxOf r id))) (> (RequestContext_Timeout (ctxOf r id)) 0)
            (= (select r (KExpH id)) (hVal h)) (= (select r (KNewH id)) bnil))))
 (define-fun newOK ((r (Array Key Bytes)) (h Int) (id Bytes)) Bool
   (=> (not (= (select r (KNewQ h id)) bnil))
